@@ -71,15 +71,13 @@ def stripLeft : List Nat → List Nat
 
 def strip (s : List Nat) : List Nat := (stripLeft (stripLeft s).reverse).reverse
 
-/-- `int(s)` for an ASCII string: optional surrounding white space, optional sign, decimal
-    digits with single underscores.  Anything else is ValueError. -/
-def pyInt (s : List Nat) : Except Exc Int :=
-  let t := strip s
-  let (neg, body) :=
-    match t with
-    | 45 :: r => (true, r)
-    | 43 :: r => (false, r)
-    | r => (false, r)
+/-- optional sign of `int(s)` -/
+def signSplit : List Nat → Bool × List Nat
+  | 45 :: r => (true, r)
+  | 43 :: r => (false, r)
+  | r => (false, r)
+
+def pyIntBody (neg : Bool) (body : List Nat) : Except Exc Int :=
   match body with
   | c :: rest =>
     if isDigit c then
@@ -88,6 +86,11 @@ def pyInt (s : List Nat) : Except Exc Int :=
       | none => .error .valueError
     else .error .valueError
   | [] => .error .valueError
+
+/-- `int(s)` for an ASCII string: optional surrounding white space, optional sign, decimal
+    digits with single underscores.  Anything else is ValueError. -/
+def pyInt (s : List Nat) : Except Exc Int :=
+  pyIntBody (signSplit (strip s)).1 (signSplit (strip s)).2
 
 /-- Python slice `s[i:j]` for 0 ≤ i ≤ j -/
 def slice (s : List Nat) (i j : Nat) : List Nat := (s.drop i).take (j - i)
